@@ -477,3 +477,8 @@ def inline_helpers(ix, fi, depth: int = 2):
             break
     ast.fix_missing_locations(fn)
     return _set_parents(fn)
+
+
+def dead(node, fn) -> bool:
+    """node sits under a constant condition that cannot hold (`if False:`, `elif 0:`, else-branch of `if True:`)."""
+    return any(isinstance(a, ast.Constant) and bool(a.value) != t for a, t in facts_at(node, fn))
